@@ -680,8 +680,10 @@ class Classes(object):
             )
         for s, e in zip(oClasses[: self.numLinear], oClasses[1 : self.numLinear + 1]):
             self.linear.append(
-                ttFont.getGlyphName(x)
-                for x in struct.unpack((">%dH" % ((e - s) / 2)), data[s:e])
+                [
+                    ttFont.getGlyphName(x)
+                    for x in struct.unpack((">%dH" % ((e - s) / 2)), data[s:e])
+                ]
             )
         for s, e in zip(
             oClasses[self.numLinear : self.numClass],
